@@ -37,7 +37,7 @@ OUTSIDE = ["stim's own parsing and fusing of adjacent instructions (the comparis
            "a LogicalObservableOperation without record fields (the fall-through builds OBSERVABLE_INCLUDE without its index argument, which real stim rejects with ValueError)"]
 ASSUMPTIONS = ["fakestim stands for stim on symbolic paths (validated instruction by instruction against real stim by the concrete twin of every path)",
                "the documented gate of each supported class is the table of factory_manager.py, restated in this harness"]
-REQUIRED_REACH = ['C08.image', 'C08.lookback', 'C08.unroll.multiset', 'C08.unroll.measurements', 'C08.library.identical']
+REQUIRED_REACH = ['C08.image.after_extension', 'C08.image', 'C08.lookback', 'C08.unroll.multiset', 'C08.unroll.measurements', 'C08.library.identical']
 EXHAUSTIVE = {'quick': False, 'thorough': False}
 JOB_OPTS = {'quick': dict(max_paths=200, max_seconds=300), 'thorough': dict(max_paths=200, max_seconds=900)}
 
@@ -70,7 +70,7 @@ def jobs(tier, seed):
     for _ in range(n):
         p = gen.random_program(rng, alpha, steps, depth, types='FSE', p_sub=0.3, p_rel=0.3, reps=(1, 2, 3), sub_rel=False)
         if gen.count_leaves(p) <= 40:
-            out.append({'prog': p})
+            out.append({'prog': p, 'again': True} if _ % 3 == 0 else {'prog': p})
     dmax, cmax = (3, 5) if tier == 'quick' else (5, 9)
     for d in range(2, dmax + 1):
         for cycles in range(0, cmax + 1):
@@ -199,6 +199,20 @@ def run(ctx, params):
     ctx.observe('units', [[n, [t[1] if isinstance(t, tuple) else t for t in ts], list(a)] for n, ts, a in got])
     cond, idx = units_equal(got, want)
     ctx.check('C08.image', cond, {'first_difference': idx, 'exported': freeze(got)[:30], 'expected': freeze(want)[:30]})
+    if params.get('again'):
+        # the export follows the circuit: the same circuit object, extended after it was exported once, is exported as it is now
+        from qce_circuit.structure import circuit_operations as co_
+        for kind in (['G', 'Rx180', [1]], ['M', 0, 'late']):
+            nd = cm.Node({'k': kind, 'rel': None}, (len(built.nodes),))
+            nd.obj = c.add(co_.Rx180(1) if kind[0] == 'G' else co_.DispersiveMeasure(0, acquisition_strategy=c.get_acquisition_strategy(), acquisition_tag='late'))
+            built.nodes.append(nd); built.all_nodes.append(nd)
+            by_obj[id(nd.obj)] = nd
+        with fakestim.installed(sym):
+            got2 = fakestim.normal_form(to_stim(c))
+        want2 = expected(c.circuit_structure, by_obj)
+        cond2, idx2 = units_equal(got2, want2)
+        ctx.check('C08.image.after_extension', cond2, {'first_difference': idx2, 'exported': freeze(got2)[:30], 'expected': freeze(want2)[:30], 'n_first_export': len(got)})
+        return
     if sym:
         ctx.check('C08.lookback', s_and(*[r < 0 for r in rec]), {'lookbacks': rec})
     else:
